@@ -290,12 +290,17 @@ impl Scenario for C16 {
         out.expect(q == Some(su32(m.mini_count)), "probe.miniapp-count", || format!("{:?} vs {}", q, m.mini_count));
     }
 
+    fn sweep_targets(&self, ctx: &Ctx) -> (Vec<(Address, &'static str, &'static [&'static str])>, Vec<Address>) {
+        (vec![(ctx.gw.clone(), "/repo/contracts/axelar-gateway/src", &axmc::inventory::GATEWAY_KNOWN[..]), (ctx.apps[0].clone(), "/repo/contracts/example/src", &axmc::inventory::EXAMPLE_KNOWN[..])], vec![ctx.apps[0].clone(), ctx.apps[1].clone(), ctx.gw.clone()])
+    }
+
     fn must_succeed_kinds(&self) -> Vec<&'static str> {
         vec!["approve", "execute-example", "execute-miniapp"]
     }
 }
 
 fn main() {
+    axmc::inventory::set_strings(&[KEYS[0].0, KEYS[0].1]);
     main_for(|tier| {
         let mut o = Opts::new(tier, if tier == "thorough" { 12 } else { 8 });
         o.min_depth = 3;
